@@ -38,6 +38,11 @@ CORPUS = [
     dict(title='Short', desc=['One %s two' % LONG], regs=[('BC', LONG)],
          instrs=[('XOR A', '', 1), ('LD (IX+5),%10101010', 'b', 1), ('JP 32768', 'A comment that exactly fills or overflows the available width depending on it', 1)],
          end=['e']),
+    # instruction comments with continuation lines, the first of which is a brace group closed on its continuation line
+    dict(title='Continuation lines', desc=[], regs=[],
+         instrs=[('DEFB 0', ('{First line of a group of one', 'which ends here}'), 1), ('DEFB 1', 'Second', 1),
+                 ('DEFB 2', ('Third comment', 'continued on the next line'), 1), ('DEFB 3', 'Last', 1)],
+         end=[]),
 ]
 
 
@@ -70,7 +75,12 @@ def skool_text(c, address=32768):
             text = '}' if group == 0 else ''
         else:
             text = comment
+        cont = ()
+        if isinstance(text, tuple):
+            text, cont = text[0], text[1:]
         lines.append('%s%05d %-22s ; %s' % (ctl, a, op, text))
+        for t in cont:
+            lines.append('%s ; %s' % (' ' * 29, t))
         a += 3
     for para in c['end']:
         lines.append('; ' + para)
@@ -84,6 +94,8 @@ def expected_words(c):
     for r, d in c['regs']:
         words += [r] + d.split()
     for op, comment, span in c['instrs']:
+        if isinstance(comment, tuple):
+            comment = ' '.join(comment).strip('{}')
         if comment:
             words += comment.split()
     for para in c['end']:
